@@ -214,8 +214,11 @@ def gen_exprs(n, seed, depth=3):
             return f"({g(d - 1)})"
         if r < 0.5:
             return f"-{atom()}" if d == depth else f"(-{g(d - 1)})"
-        op = rnd.choice(["+", "-", "*", "/", "*", "+"])
-        return f"{g(d - 1)}{op}{g(d - 1)}"
+        op = rnd.choice(["+", "-", "*", "/", "*", "+", "/", "-"])
+        right = g(d - 1)
+        if op in "/-" and rnd.random() < 0.5 and not right.startswith("("):
+            right = f"({g(d - 1)}{rnd.choice('/-*+')}{atom()})"  # grouped right operand: a/(b/c), a-(b-c)
+        return f"{g(d - 1)}{op}{right}"
 
     def g0pow(d):
         r = rnd.random()
@@ -228,7 +231,8 @@ def gen_exprs(n, seed, depth=3):
     out, seen = [], set()
     # systematic shapes first
     base = ["Tgas**2**3", "2**3**2", "T32**invT**2", "-Tgas**2", "-Tgas**0.5d0", "2*-3.0", "Tgas**-0.5", "1d-9*T32**(-0.5)*exp(-3.0d2*invT)", "3/2*Tgas", "Tgas**(1/2)", "Tgas**(1d0/2d0)",
-            "n(idx_H)*2.5d-10", "n(idx_H2)*1d-9", "n(idx_Hp)*1d-9", "n(idx_Hm)*1d-9", "n(idx_E)*1d-9", "n(idx_HE)*1d-9", "exp(-32.71396786d0+13.5365560d0*lnTe-5.73932875d0*(lnTe**2))",
+            "1.2d-10/(Tgas/3.d2)", "user_a/(n(idx_H)/user_crflux)", "Tgas/(T32/2.d0/user_a)", "2.d0*(Tgas/3.d0)", "Tgas-(T32-invT)", "Tgas/(T32*invT)", "Tgas-(T32+invT)", "user_a*Tgas/(sqrTgas/invTe/2.d0)",
+            "(Tgas/3.d2)**(-0.5d0)", "Tgas/(user_a)", "Tgas/(2.d0)/(3.d0)", "exp(-(Tgas/1.d2))", "sqrt((Tgas/1.d2))/(T32/(invT/2.d0))", "n(idx_H)*2.5d-10", "n(idx_H2)*1d-9", "n(idx_Hp)*1d-9", "n(idx_Hm)*1d-9", "n(idx_E)*1d-9", "n(idx_HE)*1d-9", "exp(-32.71396786d0+13.5365560d0*lnTe-5.73932875d0*(lnTe**2))",
             "1.4d-18*Tgas**0.928d0*exp(-Tgas/16200.)", "dexp(-4.4d0*lnTe)", "3.92d-13*invTe**0.6353d0", "(T32)**(-0.5)", "2.5d0**Tgas", "sqrt(Tgas)*sqrTgas", "user_a*user_crflux/1.3d-17", "1.d0/Tgas", "2.e-10", ".5d0*Tgas", "Tgas-2", "Tgas -2", "Tgas+-2"]
     for e in base:
         if e not in seen:
